@@ -46,11 +46,13 @@ VARIABLES cur, waiters,        \* Weighted: tokens taken; FIFO of [n |-> weight,
           lclosed,             \* LimitListener.Close was called
           backlog,             \* clients that dialled and sit in the inner listener's queue
           open,                \* accepted connections not closed yet (each holds one token)
+          eof,                 \* how many of them have seen the peer finish (EOF / half-close) but are still
+                               \* held open by their handler: they keep their slot until Close is called
           dialed, errs,        \* bounds
           last                 \* description of the step just taken (observation; not in VIEW)
 
-vars == <<cur, waiters, realCap, initCap, req, tst, td, acc, lclosed, backlog, open, dialed, errs, last>>
-view == <<cur, waiters, realCap, initCap, req, tst, td, acc, lclosed, backlog, open, dialed, errs>>
+vars == <<cur, waiters, realCap, initCap, req, tst, td, acc, lclosed, backlog, open, eof, dialed, errs, last>>
+view == <<cur, waiters, realCap, initCap, req, tst, td, acc, lclosed, backlog, open, eof, dialed, errs>>
 
 Tuners == 1..MaxResize
 
@@ -81,7 +83,7 @@ Init ==
     /\ cur = Size - initCap /\ waiters = <<>>          \* NewSem: Acquire(maxCapacity - n)
     /\ realCap = initCap /\ req = <<>>
     /\ tst = [i \in Tuners |-> "none"] /\ td = [i \in Tuners |-> 0]
-    /\ acc = "idle" /\ lclosed = FALSE /\ backlog = 0 /\ open = 0 /\ dialed = 0 /\ errs = 0
+    /\ acc = "idle" /\ lclosed = FALSE /\ backlog = 0 /\ open = 0 /\ eof = 0 /\ dialed = 0 /\ errs = 0
     /\ last = [a |-> "init", cap |-> initCap]
 
 (* ---------------- clients ---------------- *)
@@ -89,14 +91,26 @@ Dial ==
     /\ dialed < MaxDial /\ ~lclosed
     /\ backlog' = backlog + 1 /\ dialed' = dialed + 1
     /\ last' = [a |-> "dial"]
-    /\ UNCHANGED <<cur, waiters, realCap, initCap, req, tst, td, acc, lclosed, open, errs>>
+    /\ UNCHANGED <<cur, waiters, realCap, initCap, req, tst, td, acc, lclosed, open, eof, errs>>
 
-(* limitListenerConn.Close (first call): closes the connection, releaseOnce.Do(release) *)
+(* the peer finishes its stream (hangs up / half-closes): the handler's Read returns EOF, but the *)
+(* connection stays open - and keeps its slot - until the handler calls Close                    *)
+PeerEOF ==
+    /\ eof < open
+    /\ eof' = eof + 1
+    /\ last' = [a |-> "eof"]
+    /\ UNCHANGED <<cur, waiters, realCap, initCap, req, tst, td, acc, lclosed, backlog, open, dialed, errs>>
+
+(* limitListenerConn.Close (first call): closes the connection, releaseOnce.Do(release); either a *)
+(* connection whose peer is still there or one that has seen EOF                                 *)
 CloseConn ==
     /\ open > 0
     /\ Release(1)
     /\ open' = open - 1
-    /\ last' = [a |-> "close"]
+    /\ \E lingering \in BOOLEAN :
+         /\ IF lingering THEN eof > 0 ELSE open > eof
+         /\ eof' = IF lingering THEN eof - 1 ELSE eof
+         /\ last' = [a |-> "close", eof |-> lingering]
     /\ UNCHANGED <<realCap, initCap, req, td, lclosed, backlog, dialed, errs>>
 
 (* ---------------- acceptor: LimitListener.Accept ---------------- *)
@@ -107,14 +121,14 @@ AccAcquire ==
        THEN cur' = cur + 1 /\ acc' = "have" /\ UNCHANGED waiters
        ELSE waiters' = Append(waiters, [n |-> 1, who |-> 0]) /\ acc' = "waiting" /\ UNCHANGED cur
     /\ last' = [a |-> "acq", blocks |-> ~CanTake(1)]
-    /\ UNCHANGED <<realCap, initCap, req, tst, td, lclosed, backlog, open, dialed, errs>>
+    /\ UNCHANGED <<realCap, initCap, req, tst, td, lclosed, backlog, open, eof, dialed, errs>>
 
 (* inner Accept returns a connection: it is wrapped and handed to the server *)
 AccAccept ==
     /\ acc = "have" /\ backlog > 0 /\ ~lclosed
     /\ acc' = "idle" /\ backlog' = backlog - 1 /\ open' = open + 1
     /\ last' = [a |-> "accept", open |-> open, ok |-> open < C!MaxOf(C!CapsInEffect)]
-    /\ UNCHANGED <<cur, waiters, realCap, initCap, req, tst, td, lclosed, dialed, errs>>
+    /\ UNCHANGED <<cur, waiters, realCap, initCap, req, tst, td, lclosed, eof, dialed, errs>>
 
 (* inner Accept fails (e.g. EMFILE): the slot is given back *)
 AccError ==
@@ -124,14 +138,14 @@ AccError ==
          /\ acc' = "idle"                               \* the acceptor itself cannot be queued here
     /\ errs' = errs + 1
     /\ last' = [a |-> "err"]
-    /\ UNCHANGED <<realCap, initCap, req, td, lclosed, backlog, open, dialed>>
+    /\ UNCHANGED <<realCap, initCap, req, td, lclosed, backlog, open, eof, dialed>>
 
 (* LimitListener.Close: inner listener closed, context cancelled *)
 LClose ==
     /\ ~lclosed /\ lclosed' = TRUE
     /\ acc' = IF acc = "idle" THEN "stopped" ELSE acc   \* an Accept that starts now fails without a net effect
     /\ last' = [a |-> "lclose"]
-    /\ UNCHANGED <<cur, waiters, realCap, initCap, req, tst, td, backlog, open, dialed, errs>>
+    /\ UNCHANGED <<cur, waiters, realCap, initCap, req, tst, td, backlog, open, eof, dialed, errs>>
 
 (* the queued Acquire sees ctx.Done: removes itself; if it was the front waiter and tokens are *)
 (* left the others are notified                                                                *)
@@ -143,7 +157,7 @@ AccCancel ==
        IN /\ cur' = r.cur /\ waiters' = r.w /\ tst' = TstAfter(r, tst)
     /\ acc' = "stopped"
     /\ last' = [a |-> "acancel"]
-    /\ UNCHANGED <<realCap, initCap, req, td, lclosed, backlog, open, dialed, errs>>
+    /\ UNCHANGED <<realCap, initCap, req, td, lclosed, backlog, open, eof, dialed, errs>>
 
 (* the acceptor holds a slot when the listener is closed: ctx.Err() / inner Accept error -> release *)
 AccAbort ==
@@ -152,7 +166,7 @@ AccAbort ==
          /\ cur' = r.cur /\ waiters' = r.w /\ tst' = TstAfter(r, tst)
     /\ acc' = "stopped"
     /\ last' = [a |-> "aabort"]
-    /\ UNCHANGED <<realCap, initCap, req, td, lclosed, backlog, open, dialed, errs>>
+    /\ UNCHANGED <<realCap, initCap, req, td, lclosed, backlog, open, eof, dialed, errs>>
 
 (* ---------------- Semaphore.SetMaxCount ---------------- *)
 (* synchronous part: old := realCapacity; realCapacity = n (under s.lock); go tuner *)
@@ -164,7 +178,7 @@ SetMax(n) ==
          /\ tst' = [tst EXCEPT ![i] = "spawned"]
          /\ last' = [a |-> "setmax", i |-> i, n |-> n]
     /\ realCap' = n
-    /\ UNCHANGED <<cur, waiters, initCap, acc, lclosed, backlog, open, dialed, errs>>
+    /\ UNCHANGED <<cur, waiters, initCap, acc, lclosed, backlog, open, eof, dialed, errs>>
 
 (* the goroutine: Release(n-old) / Acquire(old-n) on the Weighted *)
 TunerRun(i) ==
@@ -183,17 +197,17 @@ TunerRun(i) ==
           /\ waiters' = Append(waiters, [n |-> -td[i], who |-> i]) /\ tst' = [tst EXCEPT ![i] = "waiting"]
           /\ last' = [a |-> "tuner", i |-> i, d |-> td[i], blocks |-> TRUE]
           /\ UNCHANGED <<cur, acc>>
-    /\ UNCHANGED <<realCap, initCap, req, td, lclosed, backlog, open, dialed, errs>>
+    /\ UNCHANGED <<realCap, initCap, req, td, lclosed, backlog, open, eof, dialed, errs>>
 
 (* close(done): from now on the change counts as applied *)
 TunerDone(i) ==
     /\ tst[i] = "adjusted"
     /\ tst' = [tst EXCEPT ![i] = "done"]
     /\ last' = [a |-> "tdone", i |-> i]
-    /\ UNCHANGED <<cur, waiters, realCap, initCap, req, td, acc, lclosed, backlog, open, dialed, errs>>
+    /\ UNCHANGED <<cur, waiters, realCap, initCap, req, td, acc, lclosed, backlog, open, eof, dialed, errs>>
 
 Next ==
-    \/ Dial \/ CloseConn \/ AccAcquire \/ AccAccept \/ AccError \/ LClose \/ AccCancel \/ AccAbort
+    \/ Dial \/ PeerEOF \/ CloseConn \/ AccAcquire \/ AccAccept \/ AccError \/ LClose \/ AccCancel \/ AccAbort
     \/ \E n \in Caps : SetMax(n)
     \/ \E i \in Tuners : TunerRun(i) \/ TunerDone(i)
 
@@ -201,7 +215,7 @@ Spec == Init /\ [][Next]_vars
 
 (* ---------------- properties ---------------- *)
 TypeOK ==
-    /\ cur \in 0..Size /\ realCap \in 0..Size /\ open \in 0..MaxDial /\ backlog \in 0..MaxDial
+    /\ cur \in 0..Size /\ realCap \in 0..Size /\ open \in 0..MaxDial /\ backlog \in 0..MaxDial /\ eof \in 0..open
     /\ acc \in {"idle", "waiting", "have", "stopped"}
     /\ \A i \in Tuners : tst[i] \in {"none", "spawned", "waiting", "adjusted", "done"}
     /\ (acc = "waiting") = (\E k \in 1..Len(waiters) : waiters[k].who = 0)
@@ -229,6 +243,10 @@ Conserved == AllDone => Size - cur = realCap - open - Held
 (* usable again (ReleaseReusable), clients beyond the cap are held back (HeldBack)               *)
 ReusableWhenSettled == (AllDone /\ acc = "waiting") => open >= realCap
 HeldBack == (AllDone /\ open >= realCap) => acc # "have"
+
+(* action constraint for schedule generation: the inner Accept returns as soon as the acceptor has *)
+(* its slot and a client is queued (what a real listener does; keeps replays in step)             *)
+UrgentAccept == (acc = "have" /\ backlog > 0 /\ ~lclosed) => last'.a = "accept"
 
 (* action constraint for the "no overlapping resizes" configuration: the caller waits for `done` *)
 (* before it calls SetMaxCount again (what the repository's own test does)                       *)
